@@ -7,7 +7,7 @@ changes nothing, a mutating step changes only its target.  It compares
 observations, so legal sharing (quantity functions, unfilled templates) cannot
 trip it.
 """
-from .. import observe, spec as specmod
+from .. import gate, observe, spec as specmod
 from ..kernel import call, make_box
 from .pool import PoolScenario, check_writeset, hashes, snapshot_docs
 
@@ -31,7 +31,7 @@ PURE = ("add", "mul", "zero", "copy", "read", "scribble", "ship", "new")
 class C06(PoolScenario):
     prop = "C06"
     level = "exploration"
-    profiles = ["alias-hunt", "defaults", "alias-hunt", "accessors"]
+    profiles = ["alias-hunt", "defaults", "alias-hunt", "accessors", "templates"]
     budgets = {"quick": 16000, "thorough": 300000}
     wall_caps = {"quick": 110, "thorough": 1500}
     ops = {"new": 1, "fill": 9, "fillnumpy": 3, "add": 5, "mul": 2.5, "zero": 1.5, "copy": 3, "read": 2, "scribble": 0.7,
@@ -46,7 +46,8 @@ class C06(PoolScenario):
                    "+= on operands that share state because of an earlier alias is reported once, at the first "
                    "observable change"]
     expected_faults = ["alias_mutation"]
-    expected_probes = ["mutation_after_derivation", "default_argument_tree", "accessor_ctor", "default_quantity_bystander"]
+    expected_probes = ["mutation_after_derivation", "default_argument_tree", "accessor_ctor", "default_quantity_bystander", "template_reused",
+                       "template_prefilled", "fill_after_template_reuse", "quantity_rewrapped"]
 
     def gen_workload(self, rng, tier, profile):
         self.spec_opts = {"p_default": 0.8} if profile == "defaults" else {}
@@ -60,6 +61,42 @@ class C06(PoolScenario):
         for i in range(sb.randint(0, 3)):
             case["steps"].insert(sb.randint(0, max(0, len(case["steps"]) // 2)),
                                  {"op": "bystander", "kind": sb.pick(kinds), "out": 2000 + i, "actor": "T9", "t": 0})
+        # a quantity wrapper taken from a live aggregator is wrapped again (named / cached / serializable) for a new one
+        sq = rng.fork("rewrap")
+        for i in range(sq.randint(0, 3)):
+            case["steps"].insert(sq.randint(2, max(2, len(case["steps"]))),
+                                 {"op": "rewrap", "obj": sq.randint(1, 6), "qi": sq.randrange(8), "how": sq.pick(["named", "named", "cached", "named-cached", "cached-named",
+                                                                                                              "serializable", "named-serializable"]),
+                                  "ctor": sq.pick(["Sum", "Bin", "Average", "Select", "Categorize"]), "out": 2500 + i, "actor": "T8", "t": 0})
+        if profile == "templates":
+            # one user-owned object handed as a template (value / flows / nanflow) to several separate constructor calls
+            s = rng.fork("templates")
+            n = len(case["records"])
+            topts = specmod.merge_opts(depth=2, max_nodes=4, max_coll=2, max_num=3, qkinds=[("lambda", 1)])
+            steps = case["steps"]
+            nh = 3000
+            for ti in range(s.randint(1, 2)):
+                tspec = specmod.gen_spec(s, topts)
+                nh += 1
+                th = nh
+                seq = [{"op": "template", "tspec": tspec, "out": th, "prefill": [[s.randrange(n), s.pick(specmod.POS_WEIGHTS)] for _ in range(s.pick([0, 0, 1, 3]))],
+                        "actor": "T7", "t": 0}]
+                hs = [th]
+                for _ in range(s.randint(2, 3)):
+                    nh += 1
+                    kind = s.pick(["Bin", "Bin", "SparselyBin", "CentrallyBin", "IrregularlyBin", "Stack", "Fraction", "Categorize"])
+                    slots = {"Bin": ["value", "underflow", "overflow", "nanflow"], "Fraction": ["value"], "Categorize": ["value"]}.get(kind, ["value", "nanflow"])
+                    seq.append({"op": "holder", "kind": kind, "slots": sorted(s.sample(slots, s.randint(1, len(slots)))), "tpl": th, "out": nh, "actor": "T7", "t": 0})
+                    hs.append(nh)
+                for _ in range(s.randint(2, 8)):
+                    seq.append({"op": "fill", "obj": s.pick(hs), "rec": s.randrange(n), "w": specmod.enc_float(s.pick(specmod.POS_WEIGHTS)), "actor": "T7", "t": 0,
+                                "after_template": True})
+                pos = s.randint(0, len(steps))
+                # keep the sequence in order, spread over the history
+                for e in seq:
+                    pos = s.randint(pos, len(steps))
+                    steps.insert(pos, e)
+                    pos += 1
         if profile == "accessors":
             # DataFrame accessors (df.hg_Select(q), df.hg_Bin(...)) build aggregators that rely on default arguments
             s = rng.fork("accessors")
@@ -90,6 +127,58 @@ class C06(PoolScenario):
             if o.ok:
                 w.put(st["out"], o.value, k=-1, via="ctor", mut=True)
                 w.bump("probe_default_quantity_bystander")
+            return o, set()
+        if st["op"] == "template":
+            o = call(specmod.build, st["tspec"])
+            if o.ok:
+                for i, wt in st.get("prefill", []):
+                    if i < len(w.records) and call(o.value.fill, w.records[i], wt).ok:
+                        w.bump("probe_template_prefilled")
+                w.put(st["out"], o.value, k=-1, via="ctor", mut=True)
+            return o, set()
+        if st["op"] == "holder":
+            if not w.has(st["tpl"]):
+                return None, set()
+            import histogrammar as hg
+
+            T = w.heap[st["tpl"]]
+            q = gate.make_lambda(900 + st["out"] % 50, "x")
+            kw = {sl: T for sl in st["slots"]}
+            kind = st["kind"]
+            mk = {"Bin": lambda: hg.Bin(3, -1.0, 2.0, q, **kw), "SparselyBin": lambda: hg.SparselyBin(1.0, q, **kw),
+                  "CentrallyBin": lambda: hg.CentrallyBin([-1.0, 0.5, 2.0], q, **kw), "IrregularlyBin": lambda: hg.IrregularlyBin([-0.5, 1.0], q, **kw),
+                  "Stack": lambda: hg.Stack([-0.5, 1.0], q, **kw), "Fraction": lambda: hg.Fraction(gate.make_lambda(950 + st["out"] % 50, "b"), **kw),
+                  "Categorize": lambda: hg.Categorize(gate.make_lambda(950 + st["out"] % 50, "s"), **kw)}[kind]
+            o = call(mk)
+            if o.ok:
+                w.put(st["out"], o.value, k=-1, via="ctor", mut=True)
+                w.bump("probe_template_reused")
+            return o, set()
+        if st["op"] == "rewrap":
+            from histogrammar.util import cached, named, serializable
+            from .pool import _walk_objs
+            import histogrammar as hg
+
+            hs = sorted(w.heap)
+            if not hs:
+                return None, set()
+            src = w.heap[hs[st["obj"] % len(hs)]]
+            qs = [n_.quantity for n_, _, _ in _walk_objs(src) if getattr(n_, "quantity", None) is not None and callable(n_.quantity)]
+            if not qs:
+                return None, set()
+            q = qs[st["qi"] % len(qs)]
+
+            def mk():
+                f = q
+                for how in st["how"].split("-"):
+                    f = named("renamed%d" % st["out"], f) if how == "named" else cached(f) if how == "cached" else serializable(f)
+                return {"Sum": lambda: hg.Sum(f), "Bin": lambda: hg.Bin(2, 0.0, 1.0, f), "Average": lambda: hg.Average(f), "Select": lambda: hg.Select(f, hg.Count()),
+                        "Categorize": lambda: hg.Categorize(f)}[st["ctor"]]()
+
+            o = call(mk)
+            if o.ok:
+                w.put(st["out"], o.value, k=-1, via="ctor", mut=False)
+                w.bump("probe_quantity_rewrapped")
             return o, set()
         if st["op"] == "df_ctor":
             if any(r >= len(w.records) for r in st["rows"]):
@@ -132,6 +221,8 @@ class C06(PoolScenario):
                     # a failed += may leave its target half-merged (C10's business): it stays in the write set
                 if op in ("add", "mul", "zero", "copy") and o.ok:
                     derived += 1
+                if st.get("after_template") and o.ok:
+                    w.bump("probe_fill_after_template_reuse")
                 if op in ("fill", "fillnumpy", "iadd") and derived:
                     mut_after += 1
                     w.bump("fault_alias_mutation")
